@@ -3,7 +3,7 @@
    check_case: the model computes what the implementation did.
    spec_case : what the implementation did satisfies the property, judged WITHOUT the automata:
                from the packets the clients sent and the bytes the handlers wrote alone. *)
-From Sdns Require Export Common.Base Gen.C10 C10.Model C10.ModelStream C10.ModelShare C10.ModelPool C10.ModelChains C10.ModelEdns C10.ModelFlight.
+From Sdns Require Export Common.Base Gen.C10 C10.Model C10.ModelStream C10.ModelShare C10.ModelPool C10.ModelChains C10.ModelEdns C10.ModelFlight C10.ModelQuery C10.ModelWriter C10.ModelWrap.
 Open Scope N_scope.
 
 (* byte strings travel run-length encoded: (count, byte) *)
@@ -56,6 +56,20 @@ Inductive eserveN :=
    the key that call's closure was started for, shared, leader) or nothing *)
 Inductive fopN := FJ (k key : N) | FF (c : N) | FG (key : N) | FR (k : N) | FC (k : N).
 
+(* overlapping calls of the real pipelineQueryer.Query: begin q on BufferWriter w and chain c (numbered
+   as first seen) / a handler of q writes message m / q's handlers return (the call delivers its
+   result) / q's handler panics (the call's defers run, nothing is delivered) *)
+Inductive qopN := QB (q w c : N) | QW (q m : N) | QE (q : N) | QX (q : N).
+
+(* write requests entering the chain's base writer: Write(bytes; do they decode; rcode) / WriteMsg(message
+   number; rcode; what wire.TryPack yields for it, None = declines) / WriteWire(body; rcode) *)
+Inductive wreqN := WB (bs : rle) (ok : bool) (rc : N) | WM (m rc : N) (packed : option rle) | WW (body : rle) (rc : N).
+
+(* overlapping requests on the production chain as the LAST handler sees them: r arrives wrapped by the
+   middlewares in front (wrapper identity numbered as first seen, level = its Go type) outermost
+   first / r is answered / r's chain unwinds through depth wrappers *)
+Inductive xopN := XB (r : N) (wraps : list (N * N)) | XW (r : N) | XE (r depth : N).
+
 Inductive case :=
   (* sequential operations on the real udpEngine pieces: per client address the datagrams it
      received in order; the slabs at the end; did anything panic *)
@@ -87,7 +101,18 @@ Inductive case :=
      holds when all are done, and whether all returned messages are distinct objects *)
 | CaseShare (rid : N) (body : rle) (ids : list N) (shared : bool) (edits : list rle) (got : list (N * rle)) (distinct : bool)
   (* callers of the real SingleflightWrapper.TimedDoChanWithRole under a deterministic interleaving *)
-| CaseFlight (ops : list fopN) (obs : list (N * N * option (N * N * bool * bool))).
+| CaseFlight (ops : list fopN) (obs : list (N * N * option (N * N * bool * bool)))
+  (* overlapping internal sub-queries; observed, in the order the calls came back: (query, the
+     message Query returned or None = ErrNoResponse) *)
+| CaseQuery (ops : list qopN) (obs : list (N * option N))
+  (* one request on a rebound chain (transport id, stream?, Internal()?, AllowDirectPack?): the write
+     requests its handlers issued; observed per request: nothing, or (transport, Some bytes handed to
+     Transport.Write | None and the number of the message handed to Transport.WriteMsg); the writer
+     at the end: rcode, written, msg != nil, wire != nil *)
+  (* observed per operation: for an answer, the request (exchange / stream) that received it *)
+| CaseWrap (ops : list xopN) (obs : list (option N))
+| CaseWPath (t : N) (tcp internal direct : bool) (reqs : list wreqN) (obs : list (option (N * option rle * N)))
+            (fin : N * bool * bool * bool).
 
 (* ------------------------------------------------------------------ helpers *)
 Fixpoint list_eqb {A B} (eqb : A -> B -> bool) (a : list A) (b : list B) : bool :=
@@ -327,6 +352,104 @@ Definition flight_obs_ok (s : fstate) (o : N * N * option (N * N * bool * bool))
   | _, _ => false
   end.
 
+Definition qop_of (o : qopN) : qop :=
+  match o with
+  | QB q w c => OQBegin (N.to_nat q) (N.to_nat w) (N.to_nat c)
+  | QW q m => OQWrite (N.to_nat q) m
+  | QE q => OQEnd (N.to_nat q)
+  | QX q => OQPanicEnd (N.to_nat q)
+  end.
+Definition opt_n_eqb (a b : option N) : bool :=
+  match a, b with Some x, Some y => x =? y | None, None => true | _, _ => false end.
+Definition qres_eqb (a : nat * option N * option N) (b : N * option N) : bool :=
+  let '(q, r, _) := a in (N.of_nat q =? fst b) && opt_n_eqb r (snd b).
+(* judged without the automaton: the first message the handlers of q wrote, from the operations alone *)
+Fixpoint q_first_write (q : N) (ops : list qopN) : option N :=
+  match ops with
+  | [] => None
+  | QW q' m :: r => if q' =? q then Some m else q_first_write q r
+  | _ :: r => q_first_write q r
+  end.
+(* ... and no writer / chain handed to a query while another query in flight holds it *)
+Fixpoint q_disjoint (live : list (N * N * N)) (ops : list qopN) : bool :=
+  match ops with
+  | [] => true
+  | QB q w c :: r =>
+      negb (existsb (fun x => let '(q', w', c') := x in (q' =? q) || (w' =? w) || (c' =? c)) live) &&
+      q_disjoint ((q, w, c) :: live) r
+  | QE q :: r | QX q :: r => q_disjoint (filter (fun x => negb (fst (fst x) =? q)) live) r
+  | _ :: r => q_disjoint live r
+  end.
+
+Definition wreq_of (r : wreqN) : wreq :=
+  match r with
+  | WB bs ok rc => RBytes (unrle bs) ok (Z.of_N rc)
+  | WM m rc packed => RMsg m (Z.of_N rc) (match packed with Some b => Some (unrle b) | None => None end)
+  | WW body rc => RWire (unrle body) (Z.of_N rc)
+  end.
+Definition tcall_eqb (a : option (N * tcall)) (b : option (N * option rle * N)) : bool :=
+  match a, b with
+  | None, None => true
+  | Some (t, TBytes bs), Some (t', Some r, _) => (t =? t') && bytes_eqb bs (unrle r)
+  | Some (t, TMsg m), Some (t', None, m') => (t =? t') && (m =? m')
+  | _, _ => false
+  end.
+(* judged without the automaton: the payload is the request's own *)
+Definition own_payload (r : wreqN) (o : N * option rle * N) : bool :=
+  match r, o with
+  | WB bs true _, (_, Some got, _) => bytes_eqb (unrle got) (unrle bs)
+  | WW body _, (_, Some got, _) => bytes_eqb (unrle got) (unrle body)
+  | WM m _ _, (_, None, m') => m' =? m
+  | WM _ _ (Some body), (_, Some got, _) => bytes_eqb (unrle got) (unrle body)
+  | _, _ => false
+  end.
+
+Definition xop_of (o : xopN) : xop :=
+  match o with
+  | XB r wraps => OXBegin (N.to_nat r) (map (fun p => (N.to_nat (fst p), N.to_nat (snd p))) wraps)
+  | XW r => OXWrite (N.to_nat r)
+  | XE r d => OXEnd (N.to_nat r) (N.to_nat d)
+  end.
+(* every recorded operation must be ENABLED in the model (the pools really could hand those wrappers
+   out at those levels) and an answer must arrive where it was seen to arrive *)
+Fixpoint run_xops (s : xst) (ops : list xopN) (obs : list (option N)) : bool :=
+  match ops, obs with
+  | [], [] => true
+  | o :: r, e :: r' =>
+      match xsteps_strict s (xplan (xop_of o)) with
+      | None => false
+      | Some s1 =>
+          match o, e with
+          | XW q, Some rcv =>
+              match x_log s1 with
+              | (q', Some (r2, facts)) :: _ =>
+                  (N.of_nat q' =? q) && (N.of_nat r2 =? rcv) &&
+                  forallb (fun f => match f with Some f' => N.of_nat f' =? q | None => false end) facts &&
+                  run_xops s1 r r'
+              | _ => false
+              end
+          | XW _, None => false
+          | _, None => run_xops s1 r r'
+          | _, Some _ => false
+          end
+      end
+  | _, _ => false
+  end.
+(* judged without the automaton: an answer arrives at the request that was answered; no wrapper is on
+   the chains of two requests in flight; a wrapper keeps its type *)
+Fixpoint wraps_spec (live : list (N * list (N * N))) (levels : list (N * N)) (ops : list xopN) (obs : list (option N)) : bool :=
+  match ops, obs with
+  | [], [] => true
+  | XB r wraps :: rest, None :: rest' =>
+      forallb (fun p => negb (existsb (fun x => existsb (fun p' => fst p' =? fst p) (snd x)) live) &&
+                        forallb (fun l => negb (fst l =? fst p) || (snd l =? snd p)) levels) wraps &&
+      (length (nodup N.eq_dec (map fst wraps)) =? length wraps)%nat &&
+      wraps_spec ((r, wraps) :: live) (wraps ++ levels) rest rest'
+  | XW r :: rest, Some rcv :: rest' => (rcv =? r) && wraps_spec live levels rest rest'
+  | XE r _ :: rest, None :: rest' => wraps_spec (filter (fun x => negb (fst x =? r)) live) levels rest rest'
+  | _, _ => false
+  end.
+
 (* ------------------------------------------------------------------ check_case *)
 Definition check_case (c : case) : bool :=
   match c with
@@ -384,6 +507,20 @@ Definition check_case (c : case) : bool :=
       | Some s => (length (f_callers s) =? length obs)%nat && forallb (flight_obs_ok s) obs
       | None => false
       end
+  | CaseQuery ops obs =>
+      (* every step the driver took is ENABLED in the model (the pools really could hand those
+         objects out), every call came back with what the model says, nothing is left in flight *)
+      match qsteps_strict q_init (flat_map qplan (map qop_of ops)) with
+      | Some s => list_eqb qres_eqb (rev (q_res s)) obs && match q_live s with [] => true | _ => false end
+      | None => false
+      end
+  | CaseWrap ops obs => run_xops x_init ops obs
+  | CaseWPath t tcp internal direct reqs obs fin =>
+      (* the previous state is irrelevant (base_writer_every_path_once): any stand-in will do *)
+      let '(w, es) := wf_run (wf_bind (mkWfull 77 true true 300 3 (negb tcp) 9 true true) t tcp t internal direct) (map wreq_of reqs) in
+      list_eqb tcall_eqb es obs &&
+      let '(rc, wr, hm, hw) := fin in
+      (Z.to_N (wf_rcode w) =? rc) && Bool.eqb (negb (wf_unwritten w)) wr && Bool.eqb (wf_hasmsg w) hm && Bool.eqb (wf_haswire w) hw
   end.
 
 (* ------------------------------------------------------------------ spec_case *)
@@ -454,4 +591,22 @@ Definition spec_case (c : case) : bool :=
                  (key =? ckey) &&
                  forallb (fun b => let '(k2, _, c2, _, sh2, ld2) := b in
                             (k =? k2) || negb (c =? c2) || (sh && sh2 && negb (ld && ld2))) held) held
+  | CaseQuery ops obs =>
+      (* judged on the observation alone: a call comes back with the first message ITS OWN handlers
+         wrote, with "no response" when they wrote none; overlapping calls never hold the same
+         BufferWriter or the same chain *)
+      forallb (fun o => opt_n_eqb (snd o) (q_first_write (fst o) ops)) obs && q_disjoint [] ops
+  | CaseWrap ops obs => wraps_spec [] [] ops obs
+  | CaseWPath t tcp internal direct reqs obs fin =>
+      (* at most one transport call for the request, to the transport the chain is bound to, carrying
+         the payload of the write it answers; a writer that is internal or not a declared byte sink
+         hands on the message object of a WriteMsg, never bytes *)
+      (length (filter (fun o => match o with Some _ => true | None => false end) obs) <=? 1)%nat &&
+      (length reqs =? length obs)%nat &&
+      forallb (fun ro => match snd ro with
+                         | None => true
+                         | Some o => (fst (fst o) =? t) && own_payload (fst ro) o &&
+                                     ((direct && negb internal) ||
+                                      match fst ro, o with WM _ _ _, (_, Some _, _) => false | _, _ => true end)
+                         end) (combine reqs obs)
   end.
